@@ -375,6 +375,55 @@ def probe_native(scratch, h, fq, features, prop):
     return ok, replay_path, detail
 
 
+def probe_test_src(h):
+    vals = ",\n        ".join("vec![" + ", ".join(str(b) for b in bytes.fromhex(v)) + "]" for v in h.probe.split(","))
+    return (f"#[test]\nfn kani_concrete_playback_probe_{h.name}() {{\n    let concrete_vals: Vec<Vec<u8>> = vec![\n        {vals},\n    ];\n"
+            f"    kani::concrete_playback_run(concrete_vals, {h.name});\n}}\n")
+
+
+def run_supplementary_probes(scratch, probe_hs, prop):
+    """Supplementary native probes (NOT part of the solver claim): harnesses that CBMC cannot finish on this code base
+    (`tier=off` with a `probe=` input, e.g. visitor lemmas over lists of length 2) are executed natively once on
+    their probe input. A panic is a real failing input (reported as a violation, with a replay file); a pass adds
+    nothing to what the check claims. Returns list of (harness, replay_path, detail)."""
+    found = []
+    groups = {}
+    for h in probe_hs:
+        groups.setdefault((h.file, h.features), []).append(h)
+    for (hfile, features), lst in groups.items():
+        tests = "\n".join(probe_test_src(h) for h in lst)
+        copy = os.path.join(scratch.gen, "playback_" + os.path.basename(hfile.path))
+        src = open(hfile.path).read().replace('include!("../', 'include!("' + os.path.dirname(os.path.dirname(hfile.path)) + '/')
+        open(copy, "w").write(src + "\n" + tests + "\n")
+        target = os.path.join(scratch.repo, hfile.inject_file)
+        t = open(target).read()
+        open(target, "w").write(t.replace(f'#[path = "{hfile.path}"]', f'#[path = "{copy}"]'))
+        env = dict(ENV)
+        env["CARGO_TARGET_DIR"] = os.path.join(scratch.dir, "target-playback")
+        env["RUST_BACKTRACE"] = "0"
+        cmd = ["cargo", "kani", "playback", "-Z", "concrete-playback", "-p", hfile.package]
+        if features:
+            cmd += ["--features", ",".join(features)]
+        cmd += ["--", "kani_concrete_playback_probe"]
+        p = subprocess.run(cmd, cwd=scratch.repo, env=env, stdout=subprocess.PIPE, stderr=subprocess.STDOUT, text=True)
+        open(target, "w").write(t)
+        if not re.search(r"test result: \w+\. \d+ passed; \d+ failed", p.stdout):
+            log("supplementary probes did not run for " + hfile.path + ": " + p.stdout[-400:])
+            continue
+        for h in lst:
+            if re.search(rf"test \S*kani_concrete_playback_probe_{h.name} \.\.\. FAILED", p.stdout):
+                os.makedirs(REPLAY_DIR, exist_ok=True)
+                rp = os.path.join(REPLAY_DIR, f"{prop}-{h.name}.rs")
+                open(rp, "w").write(
+                    "// Replay file written by /verif/bin/check: supplementary native probe (this harness is in no solver tier because\n"
+                    "// CBMC does not finish it; it was executed natively on its probe input and panicked).\n"
+                    f"// Re-run natively: /verif/bin/check --replay {rp}\n"
+                    f"// @replay harness={h.name} file={os.path.basename(h.file.path)} package={h.package} features={','.join(features)}\n\n"
+                    + probe_test_src(h))
+                found.append((h, rp, "native probe panics (dev profile)"))
+    return found
+
+
 def run_playback_tests(scratch, hfile, package, features, tests_src):
     # the harness module is included by #[path]; make a copy with the tests appended and re-point the include
     copy = os.path.join(scratch.gen, "playback_" + os.path.basename(hfile.path))
@@ -533,6 +582,14 @@ def check(prop, tier, seed, keep=False, only=None):
                     log(f"---- kani log tail ({key[0]}) ----\n{tail}\n----")
                 results.update({k: dict(v, idx=idx, features=key[1]) for k, v in cl.items()})
         known = load_known()
+        # supplementary native probes of harnesses that are in no solver tier
+        probe_only = [h for f in files for h in f.harnesses if prop in h.props and h.tier == "off" and h.probe]
+        if only:
+            probe_only = [h for h in probe_only if re.search(only, h.name)]
+        probe_found = run_supplementary_probes(scratch, probe_only, prop) if probe_only else []
+        if probe_only:
+            vnotes.append(f"supplementary native probes (harnesses CBMC cannot finish; NOT part of the solver claim): "
+                          f"{len(probe_only)} executed natively on their probe input, {len(probe_found)} panicked")
         violations = []
         known_hits = []
         inconclusive = []
@@ -578,6 +635,10 @@ def check(prop, tier, seed, keep=False, only=None):
             else:
                 inconclusive.append((name, "counterexample did not reproduce natively (stub/model/harness problem): "
                                      + detail))
+        for h, rp, detail in probe_found:
+            violations.append((h.name, {"failed": [{"description": "supplementary native probe panics", "file": h.file.path,
+                                                     "line": "?", "function": h.name}], "replay": rp, "replay_detail": detail,
+                                         "status": "fail"}))
         # report
         for kid, name, d in known_hits:
             k = known[kid]
